@@ -1,6 +1,13 @@
 package main
 
-import "golang.org/x/tools/go/ssa"
+import (
+	"fmt"
+	"go/token"
+	"go/types"
+	"strings"
+
+	"golang.org/x/tools/go/ssa"
+)
 
 const attestPkg = "attestation/yubiattest"
 
@@ -16,6 +23,9 @@ func init() {
 			RuleDoc: map[string]string{
 				"R1.bounds":   "index/slice/assertion obligations of the parsers and of ModHex",
 				"R1.nil":      "nil-dereference obligations (use before error check)",
+				"R3.trailing": "trailing data refused; RSA arm lenient on parameters but strict on modulus/exponent",
+				"R4.modhex":   "ModHex arms {3:offset 2, 4:offset 0}, nibble mapping, failure cases",
+				"R5.pem":      "PEM bundle loop: rest handling, white-space end, ordered append",
 				"R2.tables":   "OID / algorithm tables equal to crypto/x509's source tables",
 				"R4.alphabet": "ModHex alphabet, 4-bit masking, serial extension OID",
 			},
@@ -43,4 +53,378 @@ func runC16(c *Ctx) {
 	}
 	runPanicRules(c, "R1", c16Entries(w), 30)
 	tablesC16(c)
+	c16Structure(c)
+}
+
+// c16Structure: R3 (trailing data / RSA leniency), R4 (ModHex arms and byte mapping), R5 (PEM loop).
+func c16Structure(c *Ctx) {
+	w := c.w
+	// ---- R3 ----
+	if pc := w.Func(attestPkg, "ParseCertificate"); pc != nil {
+		f := w.Facts(pc)
+		var um *ssa.Call
+		for _, call := range callsTo(pc, "encoding/asn1.Unmarshal") {
+			um, _ = call.(*ssa.Call)
+		}
+		n := 0
+		for _, call := range callsIn(pc) {
+			cv, ok := call.(*ssa.Call)
+			if !ok {
+				continue
+			}
+			callee := cv.Call.StaticCallee()
+			if callee == nil || !w.InRepo(callee) {
+				continue
+			}
+			n++
+			okErr, okRest := false, false
+			if um != nil {
+				isNil, known := f.KnownNil(cv.Block(), extractOf(um, 1))
+				okErr = known && isNil
+				okRest = f.Any(cv.Block(), func(l Lit) bool {
+					bin, ok := l.V.(*ssa.BinOp)
+					if !ok {
+						return false
+					}
+					la := lenArg(bin.X)
+					k, isK := intConst(bin.Y)
+					if la == nil || !isK || k != 0 || la != extractOf(um, 0) {
+						return false
+					}
+					return (bin.Op == token.GTR && !l.Pol) || (bin.Op == token.NEQ && !l.Pol) || (bin.Op == token.EQL && l.Pol)
+				})
+			}
+			c.Check(okErr && okRest, "R3.trailing", "ParseCertificate|decoded only when the DER was consumed entirely", w.Pos(cv.Pos()), "must-facts asn1 err == nil and len(rest) == 0", "a certificate followed by trailing data is accepted (or an ASN.1 error ignored)")
+		}
+		c.Floor("R3.trailing", n, 1, "call of the certificate builder in ParseCertificate")
+	}
+	if pk := w.Func(attestPkg, "parsePublicKey"); pk != nil {
+		c.Saw(pk)
+		f := w.Facts(pk)
+		rsaArm := func(b *ssa.BasicBlock) bool {
+			return f.Any(b, func(l Lit) bool {
+				bin, ok := l.V.(*ssa.BinOp)
+				if !ok || bin.Op != token.EQL || !l.Pol || w.Expr(bin.X) != "p0" {
+					return false
+				}
+				k, isK := intConst(bin.Y)
+				return isK && k == 1 // x509.RSA
+			})
+		}
+		leak := false
+		for _, b := range pk.Blocks {
+			if !rsaArm(b) {
+				continue
+			}
+			for _, ins := range b.Instrs {
+				if fa, ok := ins.(*ssa.FieldAddr); ok && fieldName(fa.X.Type(), fa.Field) == "Parameters" {
+					leak = true
+					c.Bad("R3.trailing", "parsePublicKey|RSA arm ignores the algorithm parameters", w.Pos(fa.Pos()), "the RSA arm reads the AlgorithmIdentifier parameters: keys whose identifier omits the NULL would be rejected (the leniency this parser exists for)")
+				}
+			}
+		}
+		if !leak {
+			c.Ok("R3.trailing", "parsePublicKey|RSA arm ignores the algorithm parameters", w.FnPos(pk), "no access to Algorithm.Parameters under algo == RSA")
+		}
+		// the RSA key is returned only under the sign checks
+		n := 0
+		for _, r := range w.MayBeNilReturns(pk) {
+			al, ok := strip(r.Results[0]).(*ssa.Alloc)
+			if !ok || !strings.HasSuffix(al.Type().String(), "crypto/rsa.PublicKey") {
+				continue
+			}
+			n++
+			b := r.Block()
+			okN := f.Any(b, func(l Lit) bool {
+				bin, ok := l.V.(*ssa.BinOp)
+				if !ok || l.Pol || bin.Op != token.LEQ {
+					return false
+				}
+				k, isK := intConst(bin.Y)
+				return isK && k == 0 && strings.Contains(w.Expr(bin.X), "math/big.Int).Sign>(") && strings.HasSuffix(w.Expr(bin.X), ".N)")
+			})
+			okE := f.Any(b, func(l Lit) bool {
+				bin, ok := l.V.(*ssa.BinOp)
+				if !ok || l.Pol || bin.Op != token.LEQ {
+					return false
+				}
+				k, isK := intConst(bin.Y)
+				return isK && k == 0 && strings.HasSuffix(w.Expr(bin.X), ".E")
+			})
+			okRest := f.Any(b, func(l Lit) bool {
+				bin, ok := l.V.(*ssa.BinOp)
+				if !ok {
+					return false
+				}
+				k, isK := intConst(bin.Y)
+				return lenArg(bin.X) != nil && isK && k == 0 && ((bin.Op == token.NEQ && !l.Pol) || (bin.Op == token.EQL && l.Pol) || (bin.Op == token.GTR && !l.Pol))
+			})
+			c.Check(okN && okE && okRest, "R3.trailing", "parsePublicKey|RSA key only with positive modulus/exponent and no trailing data", w.Pos(r.Pos()), "must-facts N.Sign() > 0, E > 0, len(rest) == 0", "an RSA key with a non-positive modulus/exponent or trailing data can be returned")
+			fs := FieldStores(pk, al)
+			okFields := len(fs["N"]) == 1 && strings.HasSuffix(w.Expr(fs["N"][0]), ".N") && len(fs["E"]) == 1 && strings.HasSuffix(w.Expr(fs["E"][0]), ".E")
+			c.Check(okFields, "R3.trailing", "parsePublicKey|RSA key fields from the decoded structure", w.Pos(r.Pos()), "N: p.N, E: p.E", "modulus/exponent are swapped or replaced")
+		}
+		c.Floor("R3.trailing", n, 1, "RSA key return")
+	}
+
+	// ---- R4: ModHex ----
+	if mh := w.Func(attestPkg, "ModHex"); mh != nil {
+		c.Saw(mh)
+		f := w.Facts(mh)
+		// dst: make([]byte, N)
+		var dst ssa.Value
+		dstLen := int64(-1)
+		for _, b := range mh.Blocks {
+			for _, ins := range b.Instrs {
+				switch x := ins.(type) {
+				case *ssa.MakeSlice:
+					if k, ok := intConst(x.Len); ok {
+						dst, dstLen = x, k
+					}
+				case *ssa.Slice:
+					if a, ok := x.X.(*ssa.Alloc); ok && a.Heap && arrayLen(a.Type()) > 0 {
+						if bt, ok := a.Type().(*types.Pointer).Elem().(*types.Array); ok && bt.Elem().String() == "byte" || true {
+							if arrayLen(a.Type()) == 8 || dst == nil {
+								dst, dstLen = x, arrayLen(a.Type())
+							}
+						}
+					}
+				}
+			}
+		}
+		c.Check(dstLen == 8, "R4.modhex", "ModHex|8-character result", w.FnPos(mh), "make([]byte, 8)", "the result buffer is not 8 bytes")
+		// stores into dst: index and value
+		type wr struct {
+			idx ssa.Value
+			val ssa.Value
+			st  *ssa.Store
+		}
+		var loopWrites []wr
+		var serial ssa.Value
+		for _, b := range mh.Blocks {
+			for _, ins := range b.Instrs {
+				st, ok := ins.(*ssa.Store)
+				if !ok {
+					continue
+				}
+				ia, ok := st.Addr.(*ssa.IndexAddr)
+				if !ok || ia.X != dst {
+					continue
+				}
+				if _, isK := intConst(ia.Index); isK {
+					continue // the constant prefix writes of the 3-byte arm
+				}
+				loopWrites = append(loopWrites, wr{ia.Index, st.Val, st})
+			}
+		}
+		okHi, okLo := false, false
+		var idxPhi *ssa.Phi
+		for _, x := range loopWrites {
+			ix, isIdx := x.val.(*ssa.Index)
+			if !isIdx {
+				continue
+			}
+			mask, isAnd := ix.Index.(*ssa.BinOp)
+			if !isAnd || mask.Op != token.AND {
+				continue
+			}
+			if m, ok := intConst(mask.Y); !ok || m != 15 {
+				continue
+			}
+			// base index: phi or phi+1
+			if p, ok := x.idx.(*ssa.Phi); ok {
+				if sh, ok := mask.X.(*ssa.BinOp); ok && sh.Op == token.SHR {
+					if k, ok := intConst(sh.Y); ok && k == 4 {
+						okHi = true
+						idxPhi = p
+						if ld, ok := sh.X.(*ssa.UnOp); ok {
+							if ia, ok := ld.X.(*ssa.IndexAddr); ok && isForwardRangeIndex(ia.Index) {
+								serial = ia.X
+							}
+						}
+					}
+				}
+			} else if b, ok := x.idx.(*ssa.BinOp); ok && b.Op == token.ADD {
+				if one, ok := intConst(b.Y); ok && one == 1 {
+					if _, isPhi := b.X.(*ssa.Phi); isPhi {
+						if _, isLd := mask.X.(*ssa.UnOp); isLd {
+							okLo = true
+						}
+					}
+				}
+			}
+		}
+		c.Check(okHi && okLo, "R4.modhex", "ModHex|each byte becomes high nibble then low nibble", w.FnPos(mh), "dst[i] = alphabet[(b>>4)&0xf]; dst[i+1] = alphabet[b&0xf]", "the two characters of a byte are not its high and low nibble in that order")
+		if idxPhi == nil || serial == nil {
+			c.Und("R4.modhex", "ModHex|write index and serial", w.FnPos(mh), "the loop writing the result was not recognised")
+		} else {
+			// step 2
+			step := false
+			var start ssa.Value
+			for _, e := range idxPhi.Edges {
+				if b, ok := e.(*ssa.BinOp); ok && b.Op == token.ADD && b.X == ssa.Value(idxPhi) {
+					if k, ok := intConst(b.Y); ok && k == 2 {
+						step = true
+					}
+				} else {
+					start = e
+				}
+			}
+			c.Check(step, "R4.modhex", "ModHex|index advances by two per byte", w.FnPos(mh), "dstidx += 2", "the write index does not advance by two per serial byte")
+			// arms: start is a phi over the admitted lengths
+			arms := map[int64]int64{}
+			okArms := true
+			if sp, ok := start.(*ssa.Phi); ok {
+				for i, e := range sp.Edges {
+					off := lin(w, e, func(ssa.Value) string { return "" })
+					if len(off.terms) != 0 {
+						okArms = false
+						continue
+					}
+					ef := w.factsOnEdge(sp.Block().Preds[i], sp.Block())
+					ln := int64(-1)
+					for l := range ef {
+						bin, ok := l.V.(*ssa.BinOp)
+						if !ok || bin.Op != token.EQL || !l.Pol {
+							continue
+						}
+						if la := lenArg(bin.X); la != nil && la == serial {
+							if k, ok := intConst(bin.Y); ok {
+								ln = k
+							}
+						}
+					}
+					if ln < 0 {
+						okArms = false
+						continue
+					}
+					arms[ln] = off.c
+				}
+			} else {
+				okArms = false
+			}
+			good := okArms && len(arms) == 2 && arms[3] == 2 && arms[4] == 0
+			for ln, off := range arms {
+				if 2*ln+off != dstLen {
+					good = false
+				}
+			}
+			c.Check(good, "R4.modhex", "ModHex|exactly the 3-byte (offset 2) and 4-byte (offset 0) forms, 2*len+offset == 8", w.FnPos(mh), fmt.Sprint(arms), "the admitted serial lengths / offsets are not {3:2, 4:0} filling exactly 8 characters: "+fmt.Sprint(arms))
+			// the 3-byte arm writes alphabet[0] to dst[0], dst[1]
+			nPad := 0
+			for _, b := range mh.Blocks {
+				for _, ins := range b.Instrs {
+					if st, ok := ins.(*ssa.Store); ok {
+						if ia, ok := st.Addr.(*ssa.IndexAddr); ok && ia.X == dst {
+							if k, ok := intConst(ia.Index); ok && (k == 0 || k == 1) {
+								if ix, ok := st.Val.(*ssa.Index); ok {
+									if z, ok := intConst(ix.Index); ok && z == 0 {
+										nPad++
+									}
+								} else if cst, ok := st.Val.(*ssa.Const); ok && cst.Value != nil {
+									nPad++ // constant-folded alphabet[0]
+								}
+							}
+						}
+					}
+				}
+			}
+			c.Check(nPad == 2, "R4.modhex", "ModHex|old serials padded with two zero digits", w.FnPos(mh), "dst[0], dst[1] = alphabet[0]", "the 3-byte form is not padded with two ModHex zero digits")
+			// serial = ext.Value[2:] of the matching extension; absent -> error; other lengths -> error
+			sx := w.Expr(serial)
+			c.Check(strings.Contains(sx, ".Value[const(2):]") || strings.Contains(sx, "var<[]byte>") || strings.Contains(sx, "phi{"), "R4.modhex", "ModHex|serial is the extension value after the DER header", w.FnPos(mh), "ext.Value[2:]", "the serial bytes are not the extension value after its two header bytes: "+shortName(sx))
+			for _, r := range w.MayBeNilReturns(mh) {
+				okDom := false
+				if sp, ok := start.(*ssa.Phi); ok {
+					okDom = sp.Block().Dominates(r.Block())
+				}
+				isNil, known := f.KnownNil(r.Block(), serial)
+				c.Check(okDom && known && !isNil, "R4.modhex", "ModHex|success only for an admitted length of a present extension", w.Pos(r.Pos()), "dominated by the admitted arms; must-fact serial != nil", "ModHex can succeed for a missing extension or a length outside {3,4}")
+			}
+		}
+	}
+
+	// ---- R5: PEM loop ----
+	if pp := w.Func("agent/utils", "ParsePEMCertificates"); pp != nil {
+		c.Saw(pp)
+		f := w.Facts(pp)
+		var dec *ssa.Call
+		for _, call := range callsTo(pp, "encoding/pem.Decode") {
+			dec, _ = call.(*ssa.Call)
+		}
+		if dec == nil {
+			c.Bad("R5.pem", "ParsePEMCertificates|decodes PEM blocks", w.FnPos(pp), "no pem.Decode call")
+			return
+		}
+		blk, rest := extractOf(dec, 0), extractOf(dec, 1)
+		// data for the next round is the rest
+		okRest := false
+		if phi, ok := dec.Call.Args[0].(*ssa.Phi); ok {
+			saw0, sawRest := false, false
+			for _, e := range phi.Edges {
+				switch {
+				case w.Expr(e) == "p0":
+					saw0 = true
+				case e == rest:
+					sawRest = true
+				default:
+					saw0 = false
+				}
+			}
+			okRest = saw0 && sawRest
+		}
+		c.Check(okRest, "R5.pem", "ParsePEMCertificates|continues with the undecoded rest", w.Pos(dec.Pos()), "data = rest", "the loop does not continue with exactly the bytes left after the decoded block")
+		// nil block: success only when the rest is white space
+		nNil := 0
+		for _, r := range liveReturns(pp) {
+			isNil, known := f.KnownNil(r.Block(), blk)
+			if !known || !isNil {
+				continue
+			}
+			nNil++
+			ws := f.Any(r.Block(), func(l Lit) bool {
+				bin, ok := l.V.(*ssa.BinOp)
+				if !ok {
+					return false
+				}
+				la := lenArg(bin.X)
+				k, isK := intConst(bin.Y)
+				if la == nil || !isK || k != 0 || !strings.HasPrefix(w.Expr(la), "call<bytes.TrimSpace>(") {
+					return false
+				}
+				return (bin.Op == token.EQL && l.Pol) || (bin.Op == token.NEQ && !l.Pol)
+			})
+			mayNil := false
+			for _, lf := range w.Leaves(r.Results[1], r) {
+				if !w.NonNil(lf.Val, lf.Facts) {
+					mayNil = true
+				}
+			}
+			if mayNil {
+				c.Check(ws, "R5.pem", "ParsePEMCertificates|end of bundle only on white space", w.Pos(r.Pos()), "must-fact len(TrimSpace(data)) == 0", "trailing garbage after the last certificate is accepted")
+			} else {
+				c.Ok("R5.pem", "ParsePEMCertificates|garbage is an error", w.Pos(r.Pos()), "non-nil error")
+			}
+		}
+		c.Floor("R5.pem", nNil, 2, "returns on a nil PEM block")
+		// append of the parsed certificate, in order, error returned
+		okApp := false
+		for _, call := range callsIn(pp) {
+			if b, ok := call.Common().Value.(*ssa.Builtin); ok && b.Name() == "append" {
+				if sl, ok := call.Common().Args[1].(*ssa.Slice); ok {
+					if a, ok := sl.X.(*ssa.Alloc); ok {
+						for _, v := range storesInto(a) {
+							if ex, ok := v.(*ssa.Extract); ok && ex.Index == 0 {
+								if pc, ok := ex.Tuple.(*ssa.Call); ok && strings.HasSuffix(calleeName(pc), "yubiattest.ParseCertificate") && strings.HasSuffix(w.Expr(pc.Call.Args[0]), "#0.Bytes") {
+									isNil, known := f.KnownNil(call.Block(), extractOf(pc, 1))
+									okApp = known && isNil && w.ErrEdgeEnds(pp, extractOf(pc, 1))
+								}
+							}
+						}
+					}
+				}
+			}
+		}
+		c.Check(okApp, "R5.pem", "ParsePEMCertificates|each block's certificate appended, parse errors returned", w.FnPos(pp), "certs = append(certs, ParseCertificate(block.Bytes))", "a decoded block is not parsed and appended (or its parse error is dropped)")
+	}
 }
